@@ -38,6 +38,13 @@ def generate(rng, tier, rep):
             # number of import failures the model is told about comes from the world, not from what the runner counted
             c['broken'] = [rng.choice(['raise', 'exit0', 'exit', 'syntax', 'bad_suite', 'suite_exit', 'empty'])
                            for _ in range(rng.choice([1, 1, 2]))]
+        if rng.random() < (0.45 if c.get('broken') else 0.04):
+            # filters that select nothing: whatever could not be imported still decides the verdict — in every mode
+            c['select_none'] = rng.choice(['-t', '-t', '--layer'])
+            c['options'] = [o for o in c['options'] if not o.startswith('-j')]
+            if rng.random() < 0.6 and '-x' not in c['options']:
+                c['options'].append('-j%d' % rng.choice([2, 3]))
+            rep.count('nothing selected%s%s' % (', broken modules' if c.get('broken') else '', ', -j' if any(o.startswith('-j') for o in c['options']) else ''))
         cases.append(c)
     # injected subprocess faults: the verdict must be 'failed' whatever else happened
     m = {'quick': 40, 'thorough': 400, 'search': 0}[tier]
